@@ -212,7 +212,21 @@ class TheoremFullStream(TheoremStream):
             return True               # the theorem says nothing here
         self._hyp = getattr(self, "_hyp", set())
         self._hyp.add((case["h"], case["y"], case["p"]))
-        return ok == "ok" and (iline == line)
+        if iline != line:
+            return False              # the theorem speaks about another line than the one the code builds
+        if ok != "ok":                # hypotheses hold, conclusion fails on the real code: a concrete failing input (see oracle)
+            self._bad = getattr(self, "_bad", {})
+            self._bad[(case["h"], case["y"], case["p"])] = dec(iline)
+        return True
+
+    def oracle(self, case, impl_out):
+        line = getattr(self, "_bad", {}).get((case["h"], case["y"], case["p"]))
+        if line is None:
+            return None
+        m = impl_search(line)
+        return ("make-parse-theorem: the hypotheses of C20_make_parse hold for holder %r, year %r, prefix %r, but the reader sees %r in the "
+                "built line %r" % (case["h"], case["y"], case["p"], None if m is None else (m.groupdict()["prefix"], m.groupdict()["year"],
+                                                                                            m.groupdict()["statement"], m.start()), line))
 
 
 class MergeOracleStream(Stream):
@@ -301,6 +315,132 @@ class MergeOracleStream(Stream):
 
     def show(self, case):
         return {"lines": case["lines"]}
+
+
+def year_form_field(y):
+    if y is None:
+        return "none"
+    if len(y) == 4:
+        return "single/" + enc(y)
+    a, b, mid = y[:4], y[-4:], y[4:-4]
+    return "range/%s/%s/%s/%s" % (enc(a), "1" if mid.startswith(" ") else "0", "1" if mid.endswith(" ") else "0", enc(b))
+
+
+class MergeTheoremStream(Stream):
+    """Ties C20_merge_lines to the implementation: the driver evaluates the theorem's hypotheses (every input notice has a
+    table prefix, a well-formed year form and a WFHolderL holder without a notice inside); where they hold, the real
+    merge_copyright_lines on the lines the real make_copyright_line builds must show the theorem's conclusion, judged with
+    the tool's own reader and _parse_copyright_year."""
+    name = "mergetheorem"
+    rule = ("random lists of 1-8 notices (prefix key x 8 year forms incl. digits of other scripts x 16 holders incl. holders that begin "
+            "like / end in a tag and holders outside the predicates) of 1-3 holders; the compiled driver evaluates the hypotheses of "
+            "C20_merge_lines; where they hold: the lines make_copyright_line builds are the theorem's input lines, and "
+            "merge_copyright_lines returns exactly one line per holder which the reader reads back as a table prefix that is a most "
+            "common one of the holder's notices, the holder, and a year whose ends are stated years enclosing numerically every stated "
+            "year (none iff none stated); non-trivial = hypotheses hold and some holder has several lines")
+    HOLD = ["Jane Doe", "ACME Inc.", "José Álvarez", "Copyrighted Works Ltd.", "©tudio Ñandú GmbH", "(C)ompany", "Acme Copyright", "Team ©",
+            "-Free Software Ltd", "Jane Doe <jane@example.com>", "张三", "X", "Copyright", "Copyright Clearance Center", "© Holdings",
+            "Foo {Bar}"]
+    YEARFORMS = YEARS + ["2016- 2018", "2016 -2018", "٢٠٢٠", "２０１６-2017"]
+
+    def cases(self, tier, rng):
+        from reuse.copyright import _COPYRIGHT_PREFIXES
+        keys = list(_COPYRIGHT_PREFIXES)
+        for _ in range(6000 if tier == "thorough" else 900):
+            hs = rng.sample(self.HOLD[:12] if rng.random() < 0.8 else self.HOLD, rng.randint(1, 3))
+            ns = []
+            few = rng.sample(keys, rng.randint(1, 3))
+            for _ in range(rng.randint(1, 8)):
+                n = [rng.choice(few), rng.choice(self.YEARFORMS), rng.choice(hs)]
+                if n not in ns:
+                    ns.append(n)
+            yield {"ns": ns}
+
+    def impl(self, case):
+        from reuse.copyright import make_copyright_line, merge_copyright_lines
+
+        class OrderedSet(list):
+            pass
+        lines = []
+        for k, y, h in case["ns"]:
+            l = make_copyright_line(h, y, k)
+            if l not in lines:
+                lines.append(l)
+        return enc_list(lines) + "|" + enc_list(sorted(merge_copyright_lines(OrderedSet(lines))))
+
+    def model_lines(self, case):
+        ns = case["ns"]
+        return ["c20mergehyp\t%s\t%s\t%s" % (";".join(n[0] for n in ns), ";".join(year_form_field(n[1]) for n in ns),
+                                             enc_list([n[2] for n in ns]))]
+
+    def _conclusion(self, case, out):
+        from reuse.copyright import _COPYRIGHT_PREFIXES, _parse_copyright_year
+        if len(out) != len(set(out)):
+            return "duplicates"
+        holders = {}
+        for k, y, h in case["ns"]:
+            d = holders.setdefault(h, {"years": [], "prefixes": []})
+            d["prefixes"].append(_COPYRIGHT_PREFIXES[k])
+            if y:
+                d["years"] += [y[:4]] if len(y) == 4 else [y[:4], y[-4:]]
+        seen = {}
+        for o in out:
+            m = impl_search(o)
+            if m is None or m.start() != 0 or m.groupdict()["copyright"] != o:
+                return "output line %r is not read back as one notice" % o
+            g = m.groupdict()
+            if g["statement"] not in holders:
+                return "output line %r names no holder of the input" % o
+            if g["statement"] in seen:
+                return "two lines for holder %r" % g["statement"]
+            seen[g["statement"]] = o
+            d = holders[g["statement"]]
+            if g["prefix"] not in d["prefixes"] or any(d["prefixes"].count(p) > d["prefixes"].count(g["prefix"]) for p in d["prefixes"]):
+                return "prefix %r of %r is not a most common one of %r" % (g["prefix"], o, d["prefixes"])
+            ends = _parse_copyright_year(g["year"])
+            if not d["years"]:
+                if ends:
+                    return "year invented in %r" % o
+                continue
+            if not ends or any(e not in d["years"] for e in ends):
+                return "ends %r of %r are not stated years %r" % (ends, o, d["years"])
+            if any(not (int(ends[0]) <= int(y) <= int(ends[-1])) for y in d["years"]):
+                return "years %r not enclosed by %r" % (d["years"], o)
+            if len(ends) == 2 and not int(ends[0]) < int(ends[1]):
+                return "degenerate range %r" % o
+        if set(seen) != set(holders):
+            return "holders %r have no line" % sorted(set(holders) - set(seen))
+        return None
+
+    def agree(self, case, impl_out, model_out):
+        hyp, lines = model_out.split("|")
+        if hyp != "1":
+            return True               # the theorem says nothing here
+        ilines, out = impl_out.split("|")
+        if dec_list(ilines) != [l for i, l in enumerate(dec_list(lines)) if l not in dec_list(lines)[:i]]:
+            self._why = "make_copyright_line builds other lines than the theorem's input"
+            return False
+        self._hyp = getattr(self, "_hyp", set())
+        self._hyp.add(repr(case["ns"]))
+        why = self._conclusion(case, dec_list(out))
+        if why is not None:           # hypotheses hold, conclusion fails on the real code: a concrete failing input (see oracle)
+            self._bad = getattr(self, "_bad", {})
+            self._bad[repr(case["ns"])] = (why, dec_list(out))
+        return True
+
+    def nontrivial(self, case, impl_out):
+        hs = [n[2] for n in case["ns"]]
+        return repr(case["ns"]) if repr(case["ns"]) in getattr(self, "_hyp", ()) and len(hs) != len(set(hs)) else None
+
+    def oracle(self, case, impl_out):
+        bad = getattr(self, "_bad", {}).get(repr(case["ns"]))
+        if bad is None:
+            return None
+        return "merge-theorem: the hypotheses of C20_merge_lines hold for the notices %r but merge_copyright_lines gives %r: %s" % (
+            case["ns"], bad[1], bad[0])
+
+    def show(self, case):
+        return case
 
 
 class MergeCoverageStream(Stream):
@@ -612,7 +752,7 @@ class YearOptionStream(Stream):
 
 PROPERTY = Property(
     pid="C20",
-    streams=[textcorr.CSearchStream(), MakeParseStream(), TheoremStream(), TheoremFullStream(), textcorr.MergeStream(), MergeOracleStream(), MergeCoverageStream(), HeaderMergeStream(), YearOptionStream()] + pystr.DIGIT_STREAMS,
+    streams=[textcorr.CSearchStream(), MakeParseStream(), TheoremStream(), TheoremFullStream(), textcorr.MergeStream(), MergeOracleStream(), MergeTheoremStream(), MergeCoverageStream(), HeaderMergeStream(), YearOptionStream()] + pystr.DIGIT_STREAMS,
     assumptions=[
         "CPython's re engine on the three copyright patterns is mirrored by Model.searchLine (prefix extension candidates in backtracking "
         "priority, greedy white space, year alternatives, lazy statement up to END) and compared on every run; END is generated from the source",
